@@ -480,10 +480,15 @@ def u_text(ctx, nb, closed, nsamp):
     with Patches() as pt:
         pt.set(CD, "format_float_fixed_width", lambda value, width: format(value, "d") if isinstance(value, SNum) else repr(value))
         pt.set(CD.np, "loadtxt", loadtxt_contract(fs)) if False else None
-        import types
-        np_stub = types.SimpleNamespace(**{k: getattr(CD.np, k) for k in ("append",)})
-        np_stub.loadtxt = loadtxt_contract(fs)
-        pt.set(CD, "np", np_stub)
+        shim = CD.np
+
+        class NpStub:
+            """the numpy shim of the module with loadtxt reading the text-file model; everything else is passed through"""
+            loadtxt = staticmethod(loadtxt_contract(fs))
+
+            def __getattr__(self, k):
+                return getattr(shim, k)
+        pt.set(CD, "np", NpStub())
         ctx.canary()
         pth = fs.path("res.dat")
         expect_no_exception(ctx, call(CD.write_data, pth, "description", zleft=edges[:-1], zright=edges[1:], data=data, error=err, closed=closed), "C11/write_data")
